@@ -56,6 +56,10 @@ type options struct {
 
 	activeFields *fieldSet
 
+	// number of times the value being unpacked has been taken for a list of
+	// one element by the enclosing list targets
+	singleDepth int
+
 	ignoreCommas bool
 }
 
